@@ -139,6 +139,17 @@ CHECKS["C07"] = dict(
          "generator; seed reproducibility is checked concretely.",
     note="Partial: large-sample convergence, HMC/NUTS, simulate() and missingness are outside. Bounds: <=4 nodes, sample size <=2, <=14 draws per path.",
     ref="5/C07")
+CHECKS["C09"] = dict(
+    text="BIF, XMLBIF and UAI writers (and BayesianNetwork.save/load) run on models whose table entries are distinct SYMBOLS; the writer prints each symbol "
+         "as a unique numeral token, the reader (on the plain float backend) parses the text, and for every named assignment the re-read number must be "
+         "the token of the symbol originally stored there - so a transposed reshape, a permuted parent order or a mis-assigned state list is found for "
+         "all table values at once. Variables, edges and state names are compared as strings (positional names for UAI). A concrete twin covers "
+         "magnitudes 1e-12..1, exact 0/1 and tables with 3888 entries.",
+    note="Partial: this is symbolic execution with token tracing - obligations are discharged by symbol identity, no solver query is needed; the text layer "
+         "itself (regular expressions, pyparsing, ElementTree, float formatting) and the NET format are outside. Three recorded known findings.",
+    technique="symbolic execution of the real writer code on symbolic table entries with numeral-token tracing through the real reader (symx); obligations "
+              "are symbol-identity checks (no SMT query arises); concrete twin for the text layer",
+    ref="5/C09")
 
 NOT_APPLICABLE = {
     "C19": "statistic, dof and p-value are produced inside pandas.groupby / numpy.bincount / scipy.stats.chi2_contingency / chi2.cdf "
